@@ -11,6 +11,7 @@ import (
 	"time"
 
 	"github.com/cloudwego/hertz/pkg/app"
+	"github.com/cloudwego/hertz/pkg/common/config"
 
 	"verifsim/core"
 	"verifsim/wire"
@@ -23,14 +24,18 @@ func init() {
 		Real:           []string{"ext.bodyStream.Read/skipRest/ReleaseBodyStream", "ext.ReadBodyWithStreaming", "req.ReadBodyStream/ContinueReadBodyStream", "utils.ParseChunkSize/SkipCRLF", "http1.Server.Serve", "standard.Conn"},
 		Stub:           []string{"TCP (SimConn)", "peer (scripted actor)", "transporter accept loop (stub)", "clock (synctest)"},
 		Assumptions:    []string{"standard transport only", "MaxRequestBodySize left at its default (above every generated body)"},
-		RequiredProbes: []string{"fragments", "stop-early", "stop-mid-chunk", "never-touch", "read-past-eof", "chunked", "fixed-over-prefetch", "probe-after-response", "probe-pipelined", "exhaustive-stop", "hostile-body", "bad-trailer", "stall", "return-to-transport"},
+		RequiredProbes: []string{"fragments", "stop-early", "stop-mid-chunk", "never-touch", "read-past-eof", "chunked", "fixed-over-prefetch", "probe-after-response", "probe-pipelined", "exhaustive-stop", "hostile-body", "bad-trailer", "stall", "two-connections", "return-to-transport"},
 	}
 }
 
 func RunC14(ep *core.Episode) {
 	tp := ep.Tape
 	o := SrvOpts{Stream: true}
-	o.BufSize = tp.Pick("bufsize", 4096, 8192, 16384)
+	// values 0..2 keep their meaning as a three-way pick (recorded tapes); 3..5: the same sizes with a
+	// second connection streaming a request body at the same time
+	bk := tp.Choose("bufsize", 6)
+	o.BufSize = []int{4096, 8192, 16384}[bk%3]
+	twoConn := bk >= 3
 	o.ReturnToTransport = tp.Chance("returnmode", 1, 6)
 	if o.ReturnToTransport {
 		ep.Probe("return-to-transport")
@@ -40,11 +45,19 @@ func RunC14(ep *core.Episode) {
 		o.ReadTimeout = 50 * time.Millisecond
 		o.IdleTimeout = 10 * time.Second
 	}
+	if twoConn {
+		// a tracer whose hooks take time: scheduling points inside Serve's epilogue, between the
+		// release of the body stream and the reset of the request context
+		o.Configure = func(opts *config.Options) {
+			opts.Tracers = []interface{}{&yieldTracer{ep: ep}}
+		}
+		ep.Probe("two-connections")
+	}
 	nw := core.NewNet(ep)
 	srv := NewSrv(ep, nw, o)
 
 	// request A
-	gopt := GenOpt{Expect100: true, ChunkExt: true, BigBodies: true, NoBodyGET: true, Hostile: true}
+	gopt := GenOpt{Expect100: true, ChunkExt: true, BigBodies: true, Hostile: true} // GET may carry a body too
 	gopt.ForceBody = true
 	ga := GenRequest(tp, 0, false, gopt)
 	badTrailer := false
@@ -131,8 +144,37 @@ func RunC14(ep *core.Episode) {
 	warmSeen := false
 	stalledRead := false
 	echoB := &Echo{Stream: true}
+	// request X on the second connection: streamed, read to the end by its handler
+	var xBody, xGot []byte
+	var xErr error
+	xRan := false
+	if twoConn {
+		xBody = core.PatternBytes(99, tp.Pick("xlen", 100, 5000, 8192, 9000, 20000))
+	}
 	srv.Eng.NoRoute(func(c context.Context, ctx *app.RequestContext) {
 		uri := string(ctx.Request.Header.RequestURI())
+		if twoConn && uri == "/xconn" {
+			xRan = true
+			if !ctx.Request.IsBodyStream() {
+				ep.Fail("C14.prefix", "request X (%dB body) is not presented as a body stream", len(xBody))
+				return
+			}
+			s := ctx.RequestBodyStream()
+			buf := make([]byte, 1500)
+			for k := 0; k < 100000; k++ {
+				n, err := s.Read(buf)
+				xGot = append(xGot, buf[:n]...)
+				if err != nil {
+					if err != io.EOF {
+						xErr = err
+					}
+					break
+				}
+			}
+			ctx.SetStatusCode(200)
+			ctx.Response.SetBodyString(fmt.Sprintf("X read %d", len(xGot)))
+			return
+		}
 		if uri == "/warm" && !warmSeen {
 			warmSeen = true
 			ctx.SetStatusCode(200)
@@ -268,10 +310,47 @@ func RunC14(ep *core.Episode) {
 	ep.Logf("A: %s; consume mode=%d stop=%d; B: %s; pipelined=%v bufsize=%d", describeReqs([]*GenReq{ga})[0], mode, stop, describeReqs([]*GenReq{gb})[0], pipelined, o.BufSize)
 	ep.Sig(fmt.Sprintf("A:%v:%s:%d:%v stop:%d:%v", ga.M.Chunked, core.BucketSize(L), len(ga.M.Trailers), ga.Expect100, mode, stop >= 0 && stop < L))
 
-	res := ep.S.Run(func() bool { return conn.Task.Done })
+	var connX *SrvConn
+	var clX *Client
+	if twoConn {
+		connX = srv.Connect("c2")
+		clX = NewClient(ep, connX)
+		xm := &wire.Msg{Proto: "HTTP/1.1", Method: "POST", Target: "/xconn", Headers: []wire.Header{{K: "Host", V: "h"}}, Body: xBody}
+		if tp.Choose("xchunked", 2) == 1 {
+			xm.Chunked = true
+			xm.ChunkSizes = splitChunks(tp, len(xBody))
+		}
+		xb, xbounds := xm.Encode()
+		connX.A.In.Boundaries = xbounds
+		clX.Methods = []string{"POST"}
+		clX.Sends = []Send{{Data: xb, Label: "X"}}
+	}
+	res := ep.S.Run(func() bool { return conn.Task.Done && (connX == nil || connX.Task.Done) })
 	cl.Parse()
 	if CheckPanic(ep, "C14", conn) || ep.Failed() {
 		return
+	}
+	if twoConn {
+		clX.Parse()
+		if CheckPanic(ep, "C14", connX) {
+			return
+		}
+		if res == core.RunDone || connX.Task.Done {
+			// the other connection's stream is this connection's business only
+			switch {
+			case !xRan:
+				ep.Fail("C14.prefix", "request X on the second connection never reached its handler (serve err=%v)", connX.Err)
+			case xErr != nil:
+				ep.Fail("C14.prefix", "request X on the second connection: Read failed after %d of %d body bytes: %v", len(xGot), len(xBody), xErr)
+			case !bytes.Equal(xGot, xBody):
+				ep.Fail("C14.prefix", "request X on the second connection read %d bytes of its %d-byte body (first difference at %d) while the first connection was being served", len(xGot), len(xBody), firstDiff(xGot, xBody))
+			case len(clX.Resps) != 1 || clX.Resps[0].Status != 200:
+				ep.Fail("C14.sync", "second connection: responses %s, parse error %v", respSummary(clX), clX.ParseErr)
+			}
+			if ep.Failed() {
+				return
+			}
+		}
 	}
 	switch res {
 	case core.RunDeadlock:
@@ -342,4 +421,16 @@ func RunC14(ep *core.Episode) {
 	}
 	ep.Nontrivial = (stop >= 0 && stop < L) || ep.Probes["fragments"] >= 2
 	ep.Sample = map[string]interface{}{"A": describeReqs([]*GenReq{ga})[0], "B": describeReqs([]*GenReq{gb})[0], "stop_after": stop, "consume_mode": mode, "bytes_read": len(got), "pipelined": pipelined, "fragments": ep.Probes["fragments"], "B_served": len(invs) == 2}
+}
+
+// yieldTracer: a tracer whose hooks are scheduling points.
+type yieldTracer struct{ ep *core.Episode }
+
+func (t *yieldTracer) Start(ctx context.Context, c *app.RequestContext) context.Context {
+	t.ep.S.Yield("tracer.start")
+	return ctx
+}
+
+func (t *yieldTracer) Finish(ctx context.Context, c *app.RequestContext) {
+	t.ep.S.Yield("tracer.finish")
 }
